@@ -1,0 +1,89 @@
+//go:build verif
+
+package verifier
+
+import "sort"
+
+// VerifEdge is a read-only view of a GraphEdge for verification harnesses.
+type VerifEdge struct {
+	Cert   string // certificate SHA-256 fingerprint (hex)
+	Child  string // child node subject+key fingerprint (hex)
+	Issuer string // issuer node subject+key fingerprint (hex), "" when dangling
+	Root   bool
+}
+
+// VerifNode is a read-only view of a GraphNode.
+type VerifNode struct {
+	Fingerprint string              // subject+key fingerprint (hex)
+	Children    map[string][]string // child node fingerprint -> sorted certificate fingerprints
+	Parents     map[string][]string // parent node fingerprint -> sorted certificate fingerprints
+}
+
+// VerifGraph is a snapshot of the internal state of a Graph.
+type VerifGraph struct {
+	Nodes           []VerifNode
+	Edges           []VerifEdge
+	BySubjectAndKey []string            // keys of nodesBySubjectAndKey (hex), sorted
+	BySubject       map[string][]string // RawSubject -> node fingerprints in index order
+	MissingIssuer   map[string][]string // RawIssuer -> sorted certificate fingerprints
+}
+
+func verifSetFps(es *GraphEdgeSet) []string {
+	out := []string{}
+	for _, e := range es.edges {
+		out = append(out, e.Certificate.FingerprintSHA256.Hex())
+	}
+	sort.Strings(out)
+	return out
+}
+
+// VerifDump returns a canonical (sorted) snapshot of the graph internals.
+func (g *Graph) VerifDump() VerifGraph {
+	var d VerifGraph
+	for _, n := range g.nodes {
+		vn := VerifNode{Fingerprint: n.SubjectAndKey.Fingerprint.Hex(), Children: map[string][]string{}, Parents: map[string][]string{}}
+		for k, es := range n.childrenBySubjectAndKey {
+			vn.Children[x509Hex(string(k))] = verifSetFps(es)
+		}
+		for k, es := range n.parentsBySubjectAndKey {
+			vn.Parents[x509Hex(string(k))] = verifSetFps(es)
+		}
+		d.Nodes = append(d.Nodes, vn)
+	}
+	sort.Slice(d.Nodes, func(i, j int) bool { return d.Nodes[i].Fingerprint < d.Nodes[j].Fingerprint })
+	for _, e := range g.edges.edges {
+		ve := VerifEdge{Cert: e.Certificate.FingerprintSHA256.Hex(), Root: e.root}
+		if e.child != nil {
+			ve.Child = e.child.SubjectAndKey.Fingerprint.Hex()
+		}
+		if e.issuer != nil {
+			ve.Issuer = e.issuer.SubjectAndKey.Fingerprint.Hex()
+		}
+		d.Edges = append(d.Edges, ve)
+	}
+	sort.Slice(d.Edges, func(i, j int) bool { return d.Edges[i].Cert < d.Edges[j].Cert })
+	for k := range g.nodesBySubjectAndKey {
+		d.BySubjectAndKey = append(d.BySubjectAndKey, x509Hex(string(k)))
+	}
+	sort.Strings(d.BySubjectAndKey)
+	d.BySubject = map[string][]string{}
+	for s, ns := range g.nodesBySubject {
+		for _, n := range ns {
+			d.BySubject[s] = append(d.BySubject[s], n.SubjectAndKey.Fingerprint.Hex())
+		}
+	}
+	d.MissingIssuer = map[string][]string{}
+	for s, es := range g.missingIssuerNode {
+		d.MissingIssuer[s] = verifSetFps(es)
+	}
+	return d
+}
+
+func x509Hex(raw string) string {
+	const hexdigits = "0123456789abcdef"
+	out := make([]byte, 0, 2*len(raw))
+	for i := 0; i < len(raw); i++ {
+		out = append(out, hexdigits[raw[i]>>4], hexdigits[raw[i]&15])
+	}
+	return string(out)
+}
